@@ -64,6 +64,10 @@ def cells(tier):
         out.append({'kind': 'flush', 'backend': 'redis', 'msgs': 1})
         out.append({'kind': 'loadann', 'backend': 'redis', 'K': 16})
         out.append({'kind': 'loadann', 'backend': 'disk', 'K': 40})
+        out.append({'kind': 'loadann', 'backend': 'dict', 'K': 8,
+                    'snapshot': 1, 'extra': 3})
+        for b in ('shelf', 'disk', 'redis'):
+            out.append({'kind': 'restart', 'backend': b})
         # bounded store pools
         out.append({'kind': 'retry', 'backend': 'dict', 'msgs': 2, 'fails': 1,
                     'store_pool': 1})
@@ -180,6 +184,9 @@ class World(object):
             kw['store_pool'] = cell['store_pool']
         self.queue = Queue(self.store, self.relay, backoff=backoff,
                            bounce_factory=lambda e, r: None, **kw)
+        self.new_queue = lambda: Queue(self.store, self.relay,
+                                       backoff=backoff,
+                                       bounce_factory=lambda e, r: None, **kw)
 
     def stored_ids(self):
         import gevent
@@ -261,6 +268,45 @@ def run_retry(cell):
     w.check_not_forgotten(info, ids)
     api.prove(not qc.ERRORS, 'exception-in-queue-greenlet',
               errors=qc.ERRORS[:2], **info)
+
+
+def run_restart(cell):
+    """a second life of the queue on the same storage: the message was
+    re-queued for later by the first queue, which is then stopped; the new
+    queue must honour the stored due time"""
+    import gevent
+    w = World(cell, lambda tag: 1)
+    w.queue.start()
+    qc.run_until_quiescent()
+    ids = {}
+    ids['m0'] = w.queue.enqueue(qc.make_envelope('m0', 's@z', ['a@x']))[0][1]
+    t_restart = api.real('t_restart', 0)
+    state = {}
+
+    def restart():
+        gevent.sleep(t_restart)
+        w.queue.kill()
+        state['active_at_kill'] = set(w.queue.active_ids)
+        q2 = w.new_queue()
+        state['q2'] = q2
+        q2.start()
+    gevent.spawn(restart)
+    qc.run_until_quiescent()
+    w.queue.kill()
+    if 'q2' in state:
+        state['q2'].kill()
+    info = dict(backend=cell['backend'], kind='restart')
+    api.observe('calls', [[c['tag'], c['attempts']] for c in w.relay.calls])
+    # (a restart in the middle of an attempt or of its bookkeeping may repeat
+    # that attempt - crash semantics, C04; judged only when the first queue
+    # was idle at the restart)
+    if state.get('active_at_kill'):
+        return
+    w.check_not_early(info, ids)
+    calls = [c for c in w.relay.calls if c['tag'] == 'm0']
+    left = w.stored_ids()
+    api.prove(len(calls) == 2 and ids['m0'] not in left, 'message-forgotten',
+              attempts=len(calls), **info)
 
 
 def run_load(cell):
@@ -510,6 +556,17 @@ def run_loadann(cell):
             out, announce[:] = list(announce), []
             return out
         store.wait = wait
+    if cell.get('snapshot'):
+        # a paged / snapshot listing: timestamps are read up front, the
+        # entries are handed out one round trip at a time
+        orig_load = store.load
+
+        def load():
+            snap = list(orig_load())
+            for e in snap:
+                qc.yield_point()
+                yield e
+        store.load = load
     k = api.choice('k', cell['K'])
 
     def event():
